@@ -19,6 +19,7 @@ import (
 	"google.golang.org/protobuf/reflect/protoreflect"
 
 	"github.com/temporalio/s2s-proxy/auth"
+	s2scommon "github.com/temporalio/s2s-proxy/common"
 	"github.com/temporalio/s2s-proxy/interceptor"
 	"github.com/temporalio/s2s-proxy/proxy"
 	"verifharness/fakes"
@@ -246,7 +247,14 @@ func TestACL(t *testing.T) {
 			fake := &fakeWF{resp: &workflowservice.ListNamespacesResponse{Namespaces: local}}
 			srv := proxy.NewWorkflowServiceProxyServer("inboundWorkflowService", fake, auth.NewAccesControl([]string{"allowed-local"}), probe)
 			info := &grpc.UnaryServerInfo{FullMethod: "/" + gen.WorkflowServiceName + "/ListNamespaces"}
-			resp, err := tin.Intercept(context.Background(), &workflowservice.ListNamespacesRequest{}, info, func(ctx context.Context, req any) (any, error) {
+			// every other trial carries the translation-bypass header: names then come back untranslated, filtered all the same
+			bypass := k%2 == 1
+			lctx, wantName := context.Background(), "allowed-remote"
+			if bypass {
+				lctx, wantName = metadata.NewIncomingContext(lctx, metadata.Pairs(s2scommon.RequestTranslationHeaderName, "false")), "allowed-local"
+				counts["list_namespaces_calls_with_bypass_header"]++
+			}
+			resp, err := tin.Intercept(lctx, &workflowservice.ListNamespacesRequest{}, info, func(ctx context.Context, req any) (any, error) {
 				return acl.Intercept(ctx, req, info, func(ctx context.Context, req any) (any, error) {
 					return srv.ListNamespaces(ctx, req.(*workflowservice.ListNamespacesRequest))
 				})
@@ -259,12 +267,12 @@ func TestACL(t *testing.T) {
 			got := resp.(*workflowservice.ListNamespacesResponse)
 			bad := len(got.Namespaces) != want
 			for _, n := range got.Namespaces {
-				if n.NamespaceInfo.GetName() != "allowed-remote" {
+				if n.NamespaceInfo.GetName() != wantName {
 					bad = true
 				}
 			}
 			if bad {
-				viol = append(viol, violation("C16", "list-namespaces-not-filtered", fmt.Sprintf("ListNamespaces returned %v for local list %v with only allowed-local permitted", got.Namespaces, local), nil))
+				viol = append(viol, violation("C16", "list-namespaces-not-filtered", fmt.Sprintf("ListNamespaces (bypass header: %v) returned %v for local list %v with only allowed-local permitted", bypass, got.Namespaces, local), nil))
 			}
 		}
 		out.End(rec.Line{Case: "list-namespaces", Viol: dedupe(viol), Counts: counts, Class: "list-namespaces"})
